@@ -90,6 +90,10 @@ def w2(prog):
                 if not ok:
                     findings.append({"key": "W2:%s:%s:machine" % (f["q"], fam), "where": x.get("l"),
                                      "msg": "the machine used to pick the %s domain is not derived from the symbol's own Dwarf" % want.upper(), "detail": None})
+            elif isinstance(m, dict) and m.get("k") == "mem" and isinstance(unwrap(m.get("b")), dict) and unwrap(m["b"]).get("k") == "this":
+                findings.append({"key": "W2:%s:%s:machine" % (f["q"], fam), "where": x.get("l"),
+                                 "msg": "the machine that picks the %s domain is taken from the operator's own member `%s`, not from the symbol being rendered: a compiled query is shared by all inputs, so symbols of a later file are named in the first file's constant family" % (want.upper(), m["n"]),
+                                 "detail": None})
             else:
                 raise Broken("machine argument of %s at %s has an unmodelled shape (%s)" % (dn, x.get("l"), short(m)))
     if n < 6:
